@@ -238,7 +238,7 @@ CHECKS = {
         level_note="trusted: the queue model; client and server share one thread, so races inside a single ring operation are C01's subject, and blocking variants of the calls are not exercised here",
         stages=[rnd("msgs", "c02", 40000, 1500000, essential=["refused_then_retried", "two_in_flight", "deferred_notification", "size_at_limit", "size_beyond_limit", "fc_toggled_midburst", "shm", "socket",
                                                                 "event_readable_checked", "response_from_callback", "response_from_outside", "three_clients", "ring_full_refusal", "sendv",
-                                                                "client_send_blocked_then_rescued"])],
+                                                                "client_send_blocked_then_rescued", "receive_buffer_too_small"])],
         assumptions=["at most 48 requests of one client are outstanding; the state in which the client blocks on a full client-to-server notification socket is reached by shrinking that socket's buffers, and a helper thread then runs server steps (only while the main thread is stuck inside the send), lifting flow control after 20 ms",
                      "readability of the event descriptor is demanded only when the server's dispatcher has nothing left to do (deferred notifications are re-sent from the server's loop)"],
     ),
@@ -255,7 +255,8 @@ CHECKS = {
                    "only requires that closed is never invoked without created)",
         stages=[rnd("life", "c04", 60000, 2500000, essential=["app_ref_outlives_peer", "closed_retry", "destroy_with_live_connections", "disconnect_inside_msg_process", "disconnect_inside_created",
                                                                 "disconnect_inside_closed", "accept_refused", "abrupt_client_close", "list_walk", "rate_limit_change", "connect_abandoned",
-                                                                "destroy_with_retry_job_pending", "shm", "socket", "send_inside_callback", "send_on_closing_connection"])],
+                                                                "destroy_with_retry_job_pending", "shm", "socket", "send_inside_callback", "send_on_closing_connection",
+                                                                "list_walk_or_rate_limit_inside_callback"])],
         assumptions=["callbacks only disconnect their own connection (not others) and never destroy the service from inside a callback",
                      "the 100 ms retry sleeps of the socket transport's connect-on-first-send are skipped (usleep interposed)"],
     ),
@@ -292,7 +293,7 @@ CHECKS = {
                    "(failures are confirmed by repetition); wall-clock bounds carry a 3 s slack; the empty per-connection directory that the shm client leaves after a server death is not counted (the statement speaks of files)",
         stages=[rnd("death", "c03", 6000, 150000, essential=["A_died_during_handshake", "A_died_connected_idle", "A_died_with_requests_queued", "A_died_mid_request", "A_died_in_disconnect", "A_completed", "A_partial_send", "A_killed_inside_server_callback", "A_closed_asked_for_rerun",
                                                                "B_died_before_ready", "B_died_during_handshake", "B_died_while_client_waited_forever", "B_died_while_client_waited_finite", "B_killed_between_calls",
-                                                               "B_survived", "B_later_call_checked", "B_shm_cleanup_checked", "shm", "socket"])],
+                                                               "B_survived", "B_later_call_checked", "B_shm_cleanup_checked", "B_listener_set_up_by_living_parent", "shm", "socket"])],
         assumptions=["the dead server has been reaped before the client's disconnect (the client's kill(pid, 0) probe sees a zombie as alive)",
                      "a dying process stops between libc calls, or after a prefix of a send; it does not corrupt shared memory on its way out"],
     ),
